@@ -195,6 +195,32 @@ theorem Tagged.autoHeaders {lo hi : Nat} {h : List Hdr} (ht : Tagged lo hi h) : 
   | nil => exact ht
   | cons kv t ih => simp only [List.foldl_cons]; exact ih (ht.addDefault kv)
 
+theorem mem_addDefault {kv : Str × Str} {h : List Hdr} {x : Hdr} (hx : x ∈ addDefault kv h) :
+    x ∈ h ∨ x.provs = [] := by
+  unfold addDefault at hx
+  split at hx
+  · exact Or.inl hx
+  · rcases List.mem_append.mp hx with h1 | h1
+    · exact Or.inl h1
+    · simp at h1; subst h1; exact Or.inr rfl
+
+theorem mem_foldl_addDefault (l : List (Str × Str)) : ∀ (h : List Hdr) (x : Hdr),
+    x ∈ l.foldl (fun acc kv => addDefault kv acc) h → x ∈ h ∨ x.provs = [] := by
+  induction l with
+  | nil => intro h x hx; exact Or.inl hx
+  | cons kv t ih =>
+    intro h x hx
+    simp only [List.foldl_cons] at hx
+    rcases ih _ x hx with h2 | h2
+    · exact mem_addDefault h2
+    · exact Or.inr h2
+
+theorem mem_autoHeaders {h : List Hdr} {x : Hdr} (hx : x ∈ autoHeaders h) : x ∈ h ∨ x.provs = [] := by
+  unfold autoHeaders at hx
+  rcases mem_addDefault hx with h1 | h1
+  · exact mem_foldl_addDefault _ _ _ h1
+  · exact Or.inr h1
+
 theorem isSecretName_HOST : isSecretName HOST = false := by decide
 theorem isSecretName_COOKIE : isSecretName COOKIE = true := by decide
 theorem isSecretName_AUTHORIZATION : isSecretName AUTHORIZATION = true := by decide
@@ -209,11 +235,28 @@ end Aio.C17
 namespace Aio.C17
 open Aio
 
+/-- no value selected from the cookie jar is ever stored in the `headers` local -/
+def NoJar (h : List Hdr) : Prop := ∀ x ∈ h, ∀ p ∈ x.provs, ∀ k, p ≠ Prov.jar k
+
+theorem NoJar.setHdr {h : List Hdr} {x : Hdr} (hn : NoJar h) (hx : ∀ p ∈ x.provs, ∀ k, p ≠ Prov.jar k) :
+    NoJar (setHdr x h) := by
+  intro y hy
+  rcases mem_setHdr hy with h1 | h1
+  · subst h1; exact hx
+  · exact hn y h1
+
+theorem applyAuth_noJar {env : Env} {cfg : Cfg} {st : St env.jar.σ} {hs : List Hdr}
+    (hn : NoJar st.headers) (h : applyAuth env cfg st = .ok hs) : NoJar hs := by
+  unfold applyAuth at h
+  repeat' split at h
+  all_goals (cases h <;> first | exact hn | (apply hn.setHdr; intro p hp k; simp at hp; subst hp; simp))
+
 /-- the invariant of the loop state: secret-named headers in the `headers` local were all
 born in the current same-origin streak; per-request cookies are only still present while the
 streak is the one that began at hop 0 -/
 structure Inv {σ : Type} (st : St σ) : Prop where
   hdrs : Tagged st.since st.idx st.headers
+  noJar : NoJar st.headers
   cookies : st.cookies.isSome = true → st.since = 0
   le : st.since ≤ st.idx
 
@@ -351,9 +394,14 @@ open Aio
 
 /-- what one `prepare` establishes: the request on the wire carries only secrets born in
 the current streak; the loop state keeps the invariant; the ghost counters are copied -/
-structure PrepSpec {σ : Type} (st st1 : St σ) (s : Sent) : Prop where
+structure PrepSpec (env : Env) (st st1 : St env.jar.σ) (s : Sent) : Prop where
   wire : Tagged st.since st.idx s.headers
   pairs : ∀ c ∈ s.cookiePairs, GoodCookie st.since st.idx c
+  jarTag : ∀ c ∈ s.cookiePairs, ∀ p ∈ c.provs, ∀ k, p = Prov.jar k → k = st.idx
+  sJar : s.jarSel = env.jar.filter st.jar s.url
+  sData : s.data = st.data
+  sUrl : s.url = { st.url with cred := none }
+  sBody : wireBody s.data st.consumed s.headers = .ok s.body
   sIdx : s.idx = st.idx
   sSince : s.since = st.since
   sOrigin : s.url.origin = st.url.origin
@@ -370,7 +418,7 @@ structure PrepSpec {σ : Type} (st st1 : St σ) (s : Sent) : Prop where
   jar : st1.jar = st.jar
 
 theorem prepare_spec {env : Env} {cfg : Cfg} {st st1 : St env.jar.σ} {s : Sent}
-    (hinv : Inv st) (h : prepare env cfg st = .ok (st1, s)) : PrepSpec st st1 s := by
+    (hinv : Inv st) (h : prepare env cfg st = .ok (st1, s)) : PrepSpec env st st1 s := by
   unfold prepare at h
   simp only at h
   split at h
@@ -382,6 +430,18 @@ theorem prepare_spec {env : Env} {cfg : Cfg} {st st1 : St env.jar.σ} {s : Sent}
       have tall := allCookies_good { st.url with cred := none } hinv
       have t1 : Tagged st.since st.idx (autoHeaders (hostHeader { st.url with cred := none } hs :: popFirst HOST hs)) :=
         (Tagged.cons (goodHdr_host _ _ _ _) (t0.popFirst HOST)).autoHeaders
+      have nj0 := applyAuth_noJar hinv.noJar hauth
+      have nj1 : NoJar (autoHeaders (hostHeader { st.url with cred := none } hs :: popFirst HOST hs)) := by
+        intro x hx
+        rcases mem_autoHeaders hx with h1 | h1
+        · rcases List.mem_cons.mp h1 with h2 | h2
+          · subst h2
+            unfold hostHeader
+            split
+            · next y hy => exact nj0 y (getFirst_mem hy).1
+            · intro p hp; simp at hp
+          · exact nj0 x (mem_of_mem_popFirst h2)
+        · rw [h1]; intro p hp; simp at hp
       have t2 := cookieHeaders_tagged (env := env) t1 tall
       have t3 := bodyHeaders_tagged st.method st.data t2
       generalize hb : bodyHeaders st.method st.data _ = pr at h t3
@@ -401,8 +461,42 @@ theorem prepare_spec {env : Env} {cfg : Cfg} {st st1 : St env.jar.σ} {s : Sent}
           exact {
             wire := t5
             pairs := mergedCookies_good t1 tall
+            jarTag := by
+              intro c hc p hp k hk
+              subst hk
+              unfold mergedCookies at hc
+              split at hc
+              · simp at hc
+              · rw [mem_sortCookies] at hc
+                rcases mem_loadCookies hc with h1 | h1
+                · rcases mem_loadCookies h1 with h2 | h2
+                  · simp at h2
+                  · exfalso
+                    unfold headerCookies at h2
+                    split at h2
+                    · next x hx =>
+                      simp only [List.mem_map] at h2
+                      obtain ⟨nv, _, rfl⟩ := h2
+                      have hm := (getFirst_mem hx).1
+                      -- x is a header of the wire list built from the persistent headers and defaults
+                      exact nj1 x hm _ hp k rfl
+                    · simp at h2
+                · rcases mem_loadCookies h1 with h2 | h2
+                  · simp only [jarCookies, List.mem_map] at h2
+                    obtain ⟨nv, _, rfl⟩ := h2
+                    simpa using hp
+                  · unfold reqCookies at h2
+                    split at h2
+                    · simp only [List.mem_map] at h2
+                      obtain ⟨nv, _, rfl⟩ := h2
+                      simp at hp
+                    · simp at h2
+            sJar := rfl
+            sData := rfl
+            sUrl := rfl
+            sBody := hbody
             sIdx := rfl, sSince := rfl, sOrigin := rfl, sMethod := rfl
-            inv := ⟨t0.popFirst HOST, hinv.cookies, hinv.le⟩
+            inv := ⟨t0.popFirst HOST, fun x hx => nj0 x (mem_of_mem_popFirst hx), hinv.cookies, hinv.le⟩
             idx := rfl, since := rfl, url := rfl, cookies := rfl, redirects := rfl, history := rfl
             method := rfl, data := rfl, jar := rfl }
 
@@ -412,7 +506,8 @@ namespace Aio.C17
 open Aio
 
 /-- what a followed redirect establishes -/
-structure ReactSpec {σ : Type} (cfg : Cfg) (st1 st2 : St σ) (s : Sent) (r : Resp) (evs : List Ev) : Prop where
+structure ReactSpec (env : Env) (cfg : Cfg) (st1 st2 : St env.jar.σ) (s : Sent) (r : Resp) (evs : List Ev) : Prop where
+  jar : st2.jar = env.jar.update st1.jar s.url r.sc
   inv : Inv st2
   idx : st2.idx = st1.idx + 1
   streak : (st2.since = st1.since ∧ st2.url.origin = s.url.origin) ∨ st2.since = st1.idx + 1
@@ -424,10 +519,11 @@ structure ReactSpec {σ : Type} (cfg : Cfg) (st1 st2 : St σ) (s : Sent) (r : Re
   method : st2.method = if toGet r.status s.method then GET else st1.method
   data : st2.data = if toGet r.status s.method then none else some (st1.data.getD emptyBody)
   fresh : st2.consumed = false
+  notConsumed : toGet r.status s.method = false → st1.consumed = false
   evs : evs = [.release st1.idx, .release st1.idx]
 
 theorem react_spec {env : Env} {cfg : Cfg} {st1 st2 : St env.jar.σ} {s : Sent} {r : Resp} {evs : List Ev}
-    (hinv : Inv st1) (h : react env cfg st1 s r = .continue st2 evs) : ReactSpec cfg st1 st2 s r evs := by
+    (hinv : Inv st1) (h : react env cfg st1 s r = .continue st2 evs) : ReactSpec env cfg st1 st2 s r evs := by
   unfold react at h
   simp only at h
   split at h
@@ -456,21 +552,34 @@ theorem react_spec {env : Env} {cfg : Cfg} {st1 st2 : St env.jar.σ} {s : Sent} 
             cases hg : toGet r.status s.method
             · simp; exact hcons hg
             · simp
+          have hnc : toGet r.status s.method = false → st1.consumed = false := by
+            intro hg; simp at hcons; exact hcons hg
           simp at hred
           by_cases hc : (s.url.origin != target.origin) = true
           · simp only [hc, if_true]
             exact {
-              inv := ⟨tagged_stripSecrets _ _ _, by simp, by simp⟩
+              jar := rfl
+              inv := ⟨tagged_stripSecrets _ _ _, by
+                intro x hx
+                have h1 := (mem_stripSecrets hx).1
+                split at h1
+                · exact hinv.noJar x (mem_dropContentLength h1)
+                · exact hinv.noJar x h1, by simp, by simp⟩
               idx := rfl, streak := Or.inr rfl, redirects := rfl, history := rfl
-              isRedir := hred, bound := hb, target := hloc, method := rfl, data := rfl, fresh := hfresh, evs := rfl }
+              isRedir := hred, bound := hb, target := hloc, method := rfl, data := rfl, fresh := hfresh, notConsumed := hnc, evs := rfl }
           · have hc' : (s.url.origin != target.origin) = false := by simpa using hc
             have heq : target.origin = s.url.origin := by
               simp at hc'; exact hc'.symm
             simp only [hc', Bool.false_eq_true, if_false]
             refine {
-              inv := ⟨?_, hinv.cookies, Nat.le_succ_of_le hinv.le⟩
+              jar := rfl
+              inv := ⟨?_, by
+                intro x hx
+                split at hx
+                · exact hinv.noJar x (mem_dropContentLength hx)
+                · exact hinv.noJar x hx, hinv.cookies, Nat.le_succ_of_le hinv.le⟩
               idx := rfl, streak := Or.inl ⟨rfl, heq⟩, redirects := rfl, history := rfl
-              isRedir := hred, bound := hb, target := hloc, method := rfl, data := rfl, fresh := hfresh, evs := rfl }
+              isRedir := hred, bound := hb, target := hloc, method := rfl, data := rfl, fresh := hfresh, notConsumed := hnc, evs := rfl }
             have hm := hinv.hdrs.mono (Nat.le_succ st1.idx)
             show Tagged st1.since (st1.idx + 1) (if toGet r.status s.method = true then dropContentLength st1.headers else st1.headers)
             split
@@ -485,7 +594,9 @@ open Aio
 
 /-- per-request facts along the whole run, relative to the state the run starts from -/
 def SentOk {σ : Type} (st : St σ) (sk : Sent) : Prop :=
-  Tagged sk.since sk.idx sk.headers ∧ (∀ c ∈ sk.cookiePairs, GoodCookie sk.since sk.idx c) ∧
+  Tagged sk.since sk.idx sk.headers ∧
+  ((∀ c ∈ sk.cookiePairs, GoodCookie sk.since sk.idx c) ∧
+    (∀ c ∈ sk.cookiePairs, ∀ p ∈ c.provs, ∀ k, p = Prov.jar k → k = sk.idx)) ∧
   st.idx ≤ sk.idx ∧ sk.since ≤ sk.idx ∧
   ((sk.since = st.since ∧ sk.url.origin = st.url.origin) ∨ st.idx < sk.since)
 
@@ -516,10 +627,10 @@ theorem run_cons_chain {env : Env} {cfg : Cfg} (st : St env.jar.σ) (r : Resp) (
   | error e => rfl
   | ok pr => obtain ⟨a, b⟩ := pr; rfl
 
-theorem sentOk_head {σ : Type} {st st1 : St σ} {s : Sent} (hinv : Inv st) (hp : PrepSpec st st1 s) : SentOk st s := by
+theorem sentOk_head {env : Env} {st st1 : St env.jar.σ} {s : Sent} (hinv : Inv st) (hp : PrepSpec env st st1 s) : SentOk st s := by
   refine ⟨?_, ?_, ?_, ?_, ?_⟩
   · rw [hp.sSince, hp.sIdx]; exact hp.wire
-  · rw [hp.sSince, hp.sIdx]; exact hp.pairs
+  · rw [hp.sSince, hp.sIdx]; exact ⟨hp.pairs, hp.jarTag⟩
   · rw [hp.sIdx]; exact Nat.le_refl _
   · rw [hp.sSince, hp.sIdx]; exact hinv.le
   · exact Or.inl ⟨hp.sSince, hp.sOrigin⟩
@@ -628,14 +739,329 @@ theorem mem_prepareHeaders {d c : List Hdr} {x : Hdr} (hx : x ∈ prepareHeaders
 theorem init_inv (env : Env) (url : Url) (params : Option Str) (method : Str) (defaults headers : List (Str × Str))
     (cookies : Option (List (Str × Str))) (data : Option Body) (jar0 : env.jar.σ) :
     Inv (init env url params method defaults headers cookies data jar0) := by
-  refine ⟨?_, fun _ => rfl, Nat.le_refl _⟩
-  intro x hx _ p hp
-  have : x.provs = [.caller] := by
+  have hprov : ∀ x ∈ (init env url params method defaults headers cookies data jar0).headers, x.provs = [.caller] := by
+    intro x hx
     rcases mem_prepareHeaders hx with h1 | h1 <;>
     · simp only [List.mem_map] at h1
       obtain ⟨nv, _, rfl⟩ := h1
       rfl
-  rw [this] at hp; simp at hp; subst hp
-  exact ⟨Nat.le_refl _, Nat.le_refl _⟩
+  refine ⟨?_, ?_, fun _ => rfl, Nat.le_refl _⟩
+  · intro x hx _ p hp
+    rw [hprov x hx] at hp; simp at hp; subst hp
+    exact ⟨Nat.le_refl _, Nat.le_refl _⟩
+  · intro x hx p hp k
+    rw [hprov x hx] at hp; simp at hp; subst hp; simp
+
+end Aio.C17
+
+namespace Aio.C17
+open Aio
+
+/-- the four ways one unfolding of `run` can go -/
+inductive RunView (env : Env) (cfg : Cfg) (st : St env.jar.σ) (chain : List Resp) (res : Result) : Prop where
+  | prepErr (e : Err) (hp : prepare env cfg st = .error e)
+      (hres : res = { sent := [], events := [], out := .err e })
+  | pending (st1 : St env.jar.σ) (s : Sent) (hp : prepare env cfg st = .ok (st1, s)) (hc : chain = [])
+      (hres : res = { sent := [s], events := [], out := .pending })
+  | stop (st1 : St env.jar.σ) (s : Sent) (r : Resp) (rest : List Resp) (out : Outcome) (evs : List Ev)
+      (hp : prepare env cfg st = .ok (st1, s)) (hc : chain = r :: rest)
+      (hr : react env cfg st1 s r = .stop out evs)
+      (hres : res = { sent := [s], events := evs, out := out })
+  | cont (st1 : St env.jar.σ) (s : Sent) (r : Resp) (rest : List Resp) (st2 : St env.jar.σ) (evs : List Ev)
+      (hp : prepare env cfg st = .ok (st1, s)) (hc : chain = r :: rest)
+      (hr : react env cfg st1 s r = .continue st2 evs)
+      (hres : res = { sent := s :: (run env cfg st2 rest).sent, events := evs ++ (run env cfg st2 rest).events,
+                      out := (run env cfg st2 rest).out })
+
+theorem run_view {env : Env} {cfg : Cfg} (st : St env.jar.σ) (chain : List Resp) :
+    RunView env cfg st chain (run env cfg st chain) := by
+  cases chain with
+  | nil =>
+    rw [run_nil_chain]
+    cases hp : prepare env cfg st with
+    | error e => exact .prepErr e hp rfl
+    | ok pr => obtain ⟨st1, s⟩ := pr; exact .pending st1 s hp rfl rfl
+  | cons r rest =>
+    rw [run_cons_chain]
+    cases hp : prepare env cfg st with
+    | error e => exact .prepErr e hp rfl
+    | ok pr =>
+      obtain ⟨st1, s⟩ := pr
+      simp only
+      cases hr : react env cfg st1 s r with
+      | stop out evs => exact .stop st1 s r rest out evs hp rfl hr rfl
+      | «continue» st2 evs => exact .cont st1 s r rest st2 evs hp rfl hr rfl
+
+/-- what `react` can answer when it stops, by the shape of the response -/
+theorem react_stop_cases {env : Env} {cfg : Cfg} {st1 : St env.jar.σ} {s : Sent} {r : Resp} {out : Outcome} {evs : List Ev}
+    (h : react env cfg st1 s r = .stop out evs) :
+    -- not a (followed) redirect: returned as is
+    ((isRedirect r.status && cfg.allowRedirects) = false ∧ out = .ok st1.idx st1.history ∧ evs = []) ∨
+    ((isRedirect r.status && cfg.allowRedirects) = true ∧
+      ( (out = .err .tooManyRedirects ∧ evs = [.close st1.idx]) ∨
+        (out = .err .payloadConsumed ∧ evs = [.close st1.idx]) ∨
+        (r.loc = .none ∧ out = .ok st1.idx (st1.history ++ [st1.idx]) ∧ evs = []) ∨
+        (r.loc = .invalid ∧ out = .err .invalidRedirectUrl ∧ evs = [.release st1.idx, .close st1.idx]) ∨
+        (r.loc = .nonHttp ∧ out = .err .nonHttpRedirect ∧ evs = [.release st1.idx, .close st1.idx]) ∨
+        (r.loc = .badOrigin ∧ out = .err .invalidRedirectUrl ∧ evs = [.release st1.idx, .close st1.idx]))) := by
+  unfold react at h
+  simp only at h
+  split at h
+  · next hred =>
+    right; refine ⟨hred, ?_⟩
+    split at h
+    · injection h with h1 h2; subst h1; subst h2; exact Or.inl ⟨rfl, rfl⟩
+    · split at h
+      · injection h with h1 h2; subst h1; subst h2; exact Or.inr (Or.inl ⟨rfl, rfl⟩)
+      · split at h
+        · next hl => injection h with h1 h2; subst h1; subst h2; exact Or.inr (Or.inr (Or.inl ⟨hl, rfl, rfl⟩))
+        · next hl => injection h with h1 h2; subst h1; subst h2; exact Or.inr (Or.inr (Or.inr (Or.inl ⟨hl, rfl, rfl⟩)))
+        · next hl => injection h with h1 h2; subst h1; subst h2; exact Or.inr (Or.inr (Or.inr (Or.inr (Or.inl ⟨hl, rfl, rfl⟩))))
+        · next hl => injection h with h1 h2; subst h1; subst h2; exact Or.inr (Or.inr (Or.inr (Or.inr (Or.inr ⟨hl, rfl, rfl⟩))))
+        · cases h
+  · next hred =>
+    left
+    injection h with h1 h2; subst h1; subst h2
+    exact ⟨by simpa using hred, rfl, rfl⟩
+
+/-- number of requests: with a positive `max_redirects`, requests + redirects so far ≤ max -/
+theorem run_count {env : Env} {cfg : Cfg} (hmax : cfg.maxRedirects ≠ 0) (chain : List Resp) :
+    ∀ (st : St env.jar.σ), Inv st → st.redirects < cfg.maxRedirects →
+      (run env cfg st chain).sent.length + st.redirects ≤ cfg.maxRedirects := by
+  induction chain with
+  | nil =>
+    intro st hinv hlt
+    rcases run_view (cfg := cfg) st [] with ⟨e, hp, hres⟩ | ⟨st1, s, hp, hc, hres⟩ | ⟨st1, s, r, rest, out, evs, hp, hc, hr, hres⟩ | ⟨st1, s, r, rest, st2, evs, hp, hc, hr, hres⟩
+    · rw [hres]; simp; omega
+    · rw [hres]; simp; omega
+    · cases hc
+    · cases hc
+  | cons r0 rest0 ih =>
+    intro st hinv hlt
+    rcases run_view (cfg := cfg) st (r0 :: rest0) with ⟨e, hp, hres⟩ | ⟨st1, s, hp, hc, hres⟩ | ⟨st1, s, r, rest, out, evs, hp, hc, hr, hres⟩ | ⟨st1, s, r, rest, st2, evs, hp, hc, hr, hres⟩
+    · rw [hres]; simp; omega
+    · rw [hres]; simp; omega
+    · rw [hres]; simp; omega
+    · injection hc with h1 h2; subst h1; subst h2
+      have ps := prepare_spec hinv hp
+      have rs := react_spec ps.inv hr
+      rw [hres]
+      have hb : st2.redirects < cfg.maxRedirects := by
+        rcases rs.bound with hb | hb
+        · exact absurd hb hmax
+        · rw [rs.redirects]; exact hb
+      have := ih st2 rs.inv hb
+      rw [rs.redirects, ps.redirects] at this
+      simp only [List.length_cons]
+      omega
+
+end Aio.C17
+
+namespace Aio.C17
+open Aio
+
+theorem run_head {env : Env} {cfg : Cfg} {st : St env.jar.σ} {chain : List Resp} {s0 : Sent}
+    (h : (run env cfg st chain).sent[0]? = some s0) : ∃ st1, prepare env cfg st = .ok (st1, s0) := by
+  rcases run_view (cfg := cfg) st chain with ⟨e, hp, hres⟩ | ⟨st1, s, hp, hc, hres⟩ | ⟨st1, s, r, rest, out, evs, hp, hc, hr, hres⟩ | ⟨st1, s, r, rest, st2, evs, hp, hc, hr, hres⟩
+  all_goals (rw [hres] at h; simp at h)
+  all_goals (subst h; exact ⟨st1, hp⟩)
+
+/-- every request after the first was caused by a followed redirect with a well-formed
+http(s) target, goes to that target, and has method / payload per the status × method table -/
+theorem run_follow {env : Env} {cfg : Cfg} (chain : List Resp) :
+    ∀ (st : St env.jar.σ) (k : Nat) (sk : Sent), Inv st → (run env cfg st chain).sent[k + 1]? = some sk →
+      ∃ sj r u, (run env cfg st chain).sent[k]? = some sj ∧ chain[k]? = some r ∧ r.loc = .ok u ∧
+        isRedirect r.status = true ∧ cfg.allowRedirects = true ∧
+        sk.url = { u with cred := none } ∧ sk.idx = st.idx + k + 1 ∧ sj.idx = st.idx + k ∧
+        sk.method = (if toGet r.status sj.method then GET else sj.method) ∧
+        sk.data = (if toGet r.status sj.method then none else some (sj.data.getD emptyBody)) ∧
+        wireBody sk.data false sk.headers = .ok sk.body := by
+  induction chain with
+  | nil =>
+    intro st k sk hinv h
+    rcases run_view (cfg := cfg) st [] with ⟨e, hp, hres⟩ | ⟨st1, s, hp, hc, hres⟩ | ⟨st1, s, r, rest, out, evs, hp, hc, hr, hres⟩ | ⟨st1, s, r, rest, st2, evs, hp, hc, hr, hres⟩
+    · rw [hres] at h; simp at h
+    · rw [hres] at h; simp at h
+    · cases hc
+    · cases hc
+  | cons r0 rest0 ih =>
+    intro st k sk hinv h
+    rcases run_view (cfg := cfg) st (r0 :: rest0) with ⟨e, hp, hres⟩ | ⟨st1, s, hp, hc, hres⟩ | ⟨st1, s, r, rest, out, evs, hp, hc, hr, hres⟩ | ⟨st1, s, r, rest, st2, evs, hp, hc, hr, hres⟩
+    · rw [hres] at h; simp at h
+    · cases hc
+    · rw [hres] at h; simp at h
+    · injection hc with h1 h2; subst h1; subst h2
+      have ps := prepare_spec hinv hp
+      have rs := react_spec ps.inv hr
+      rw [hres] at h ⊢
+      simp only [List.getElem?_cons_succ] at h
+      cases k with
+      | zero =>
+        obtain ⟨st1', hp'⟩ := run_head h
+        have ps' := prepare_spec rs.inv hp'
+        refine ⟨s, r0, st2.url, by simp, by simp, rs.target, rs.isRedir.1, rs.isRedir.2, ps'.sUrl, ?_, ?_, ?_, ?_, ?_⟩
+        · rw [ps'.sIdx, rs.idx, ps.idx]
+        · rw [ps.sIdx]; rfl
+        · rw [ps'.sMethod, rs.method, ps.method, ps.sMethod]
+        · rw [ps'.sData, rs.data, ps.data, ps.sData]
+        · have := ps'.sBody; rw [rs.fresh] at this; exact this
+      | succ k' =>
+        obtain ⟨sj, r, u, a1, a2, a3, a4, a5, a6, a7, a8, a9, a10, a11⟩ := ih st2 k' sk rs.inv h
+        refine ⟨sj, r, u, by simpa using a1, by simpa using a2, a3, a4, a5, a6, ?_, ?_, a9, a10, a11⟩
+        · rw [a7, rs.idx, ps.idx]; omega
+        · rw [a8, rs.idx, ps.idx]; omega
+
+/-- `history` and releases on a successful return -/
+theorem run_history {env : Env} {cfg : Cfg} (chain : List Resp) :
+    ∀ (st : St env.jar.σ), Inv st → st.history = List.range st.idx →
+      ∀ f hist, (run env cfg st chain).out = .ok f hist →
+        st.idx ≤ f ∧ f + 1 = st.idx + (run env cfg st chain).sent.length ∧
+        (∀ i, st.idx ≤ i → i < f → Ev.release i ∈ (run env cfg st chain).events) ∧
+        ∃ r, chain[f - st.idx]? = some r ∧
+          (((isRedirect r.status && cfg.allowRedirects) = false ∧ hist = List.range f) ∨
+           ((isRedirect r.status && cfg.allowRedirects) = true ∧ r.loc = .none ∧ hist = List.range (f + 1))) := by
+  induction chain with
+  | nil =>
+    intro st hinv hh f hist h
+    rcases run_view (cfg := cfg) st [] with ⟨e, hp, hres⟩ | ⟨st1, s, hp, hc, hres⟩ | ⟨st1, s, r, rest, out, evs, hp, hc, hr, hres⟩ | ⟨st1, s, r, rest, st2, evs, hp, hc, hr, hres⟩
+    · rw [hres] at h; cases h
+    · rw [hres] at h; cases h
+    · cases hc
+    · cases hc
+  | cons r0 rest0 ih =>
+    intro st hinv hh f hist h
+    rcases run_view (cfg := cfg) st (r0 :: rest0) with ⟨e, hp, hres⟩ | ⟨st1, s, hp, hc, hres⟩ | ⟨st1, s, r, rest, out, evs, hp, hc, hr, hres⟩ | ⟨st1, s, r, rest, st2, evs, hp, hc, hr, hres⟩
+    · rw [hres] at h; cases h
+    · cases hc
+    · injection hc with h1 h2; subst h1; subst h2
+      have ps := prepare_spec hinv hp
+      rw [hres] at h ⊢
+      simp only at h
+      subst h
+      rcases react_stop_cases hr with ⟨h1, h2, h3⟩ | ⟨h1, h2⟩
+      · injection h2 with h4 h5
+        subst h4; subst h5
+        refine ⟨by rw [ps.idx]; exact Nat.le_refl _, by simp [ps.idx], ?_, r0, by simp [ps.idx], Or.inl ⟨h1, ?_⟩⟩
+        · intro i a b; rw [ps.idx] at b; omega
+        · rw [ps.history, hh, ps.idx]
+      · rcases h2 with ⟨h2, _⟩ | ⟨h2, _⟩ | ⟨hl, h2, _⟩ | ⟨_, h2, _⟩ | ⟨_, h2, _⟩ | ⟨_, h2, _⟩
+        · cases h2
+        · cases h2
+        · injection h2 with h4 h5
+          subst h4; subst h5
+          refine ⟨by rw [ps.idx]; exact Nat.le_refl _, by simp [ps.idx], ?_, r0, by simp [ps.idx], Or.inr ⟨h1, hl, ?_⟩⟩
+          · intro i a b; rw [ps.idx] at b; omega
+          · rw [ps.history, hh, ps.idx, List.range_succ]
+        · cases h2
+        · cases h2
+        · cases h2
+    · injection hc with h1 h2; subst h1; subst h2
+      have ps := prepare_spec hinv hp
+      have rs := react_spec ps.inv hr
+      rw [hres] at h ⊢
+      simp only at h
+      have hh2 : st2.history = List.range st2.idx := by
+        rw [rs.history, rs.idx, ps.history, ps.idx, hh, List.range_succ]
+      obtain ⟨b1, b2, b3, r, b4, b5⟩ := ih st2 rs.inv hh2 f hist h
+      have hidx : st2.idx = st.idx + 1 := by rw [rs.idx, ps.idx]
+      refine ⟨by omega, by simp only [List.length_cons]; omega, ?_, r, ?_, b5⟩
+      · intro i a b
+        simp only [List.mem_append]
+        by_cases hi : i = st.idx
+        · left; rw [rs.evs, ps.idx, hi]; simp
+        · right; exact b3 i (by omega) b
+      · have : f - st.idx = (f - st2.idx) + 1 := by omega
+        rw [this]; simpa using b4
+
+/-- every response that was received is released, closed, or is the one returned -/
+theorem run_disposed {env : Env} {cfg : Cfg} (chain : List Resp) :
+    ∀ (st : St env.jar.σ), Inv st → (run env cfg st chain).out ≠ .pending →
+      ∀ i, st.idx ≤ i → i < st.idx + (run env cfg st chain).sent.length →
+        Ev.release i ∈ (run env cfg st chain).events ∨ Ev.close i ∈ (run env cfg st chain).events ∨
+        ∃ h, (run env cfg st chain).out = .ok i h := by
+  induction chain with
+  | nil =>
+    intro st hinv hne i h1 h2
+    rcases run_view (cfg := cfg) st [] with ⟨e, hp, hres⟩ | ⟨st1, s, hp, hc, hres⟩ | ⟨st1, s, r, rest, out, evs, hp, hc, hr, hres⟩ | ⟨st1, s, r, rest, st2, evs, hp, hc, hr, hres⟩
+    · rw [hres] at h2; simp at h2; omega
+    · rw [hres] at hne; simp at hne
+    · cases hc
+    · cases hc
+  | cons r0 rest0 ih =>
+    intro st hinv hne i h1 h2
+    rcases run_view (cfg := cfg) st (r0 :: rest0) with ⟨e, hp, hres⟩ | ⟨st1, s, hp, hc, hres⟩ | ⟨st1, s, r, rest, out, evs, hp, hc, hr, hres⟩ | ⟨st1, s, r, rest, st2, evs, hp, hc, hr, hres⟩
+    · rw [hres] at h2; simp at h2; omega
+    · cases hc
+    · have ps := prepare_spec hinv hp
+      rw [hres] at h2 ⊢
+      simp at h2
+      have hi : i = st1.idx := by rw [ps.idx]; omega
+      subst hi
+      simp only
+      rcases react_stop_cases hr with ⟨_, h4, _⟩ | ⟨_, h4⟩
+      · right; right; exact ⟨_, h4⟩
+      · rcases h4 with ⟨_, h5⟩ | ⟨_, h5⟩ | ⟨_, h5, _⟩ | ⟨_, _, h5⟩ | ⟨_, _, h5⟩ | ⟨_, _, h5⟩
+        · right; left; rw [h5]; simp
+        · right; left; rw [h5]; simp
+        · right; right; exact ⟨_, h5⟩
+        · left; rw [h5]; simp
+        · left; rw [h5]; simp
+        · left; rw [h5]; simp
+    · injection hc with h3 h4; subst h3; subst h4
+      have ps := prepare_spec hinv hp
+      have rs := react_spec ps.inv hr
+      rw [hres] at h2 hne ⊢
+      simp only [List.length_cons] at h2
+      simp only at hne ⊢
+      have hidx : st2.idx = st.idx + 1 := by rw [rs.idx, ps.idx]
+      by_cases hi : i = st.idx
+      · left; rw [rs.evs, ps.idx, hi]; simp
+      · rcases ih st2 rs.inv hne i (by omega) (by omega) with h5 | h5 | h5
+        · left; exact List.mem_append_right _ h5
+        · right; left; exact List.mem_append_right _ h5
+        · right; right; exact h5
+
+/-- the cookie jar after the responses to the first requests have been fed to it -/
+def jarAfter (env : Env) : env.jar.σ → List Sent → List Resp → env.jar.σ
+  | j, s :: ss, r :: rs => jarAfter env (env.jar.update j s.url r.sc) ss rs
+  | j, _, _ => j
+
+theorem run_jar {env : Env} {cfg : Cfg} (chain : List Resp) :
+    ∀ (st : St env.jar.σ) (k : Nat) (sk : Sent), Inv st → (run env cfg st chain).sent[k]? = some sk →
+      sk.jarSel = env.jar.filter (jarAfter env st.jar ((run env cfg st chain).sent.take k) (chain.take k)) sk.url := by
+  induction chain with
+  | nil =>
+    intro st k sk hinv h
+    cases k with
+    | zero =>
+      obtain ⟨st1, hp⟩ := run_head h
+      have ps := prepare_spec hinv hp
+      simp [jarAfter, ps.sJar]
+    | succ k' =>
+      rcases run_view (cfg := cfg) st [] with ⟨e, hp, hres⟩ | ⟨st1, s, hp, hc, hres⟩ | ⟨st1, s, r, rest, out, evs, hp, hc, hr, hres⟩ | ⟨st1, s, r, rest, st2, evs, hp, hc, hr, hres⟩
+      · rw [hres] at h; simp at h
+      · rw [hres] at h; simp at h
+      · cases hc
+      · cases hc
+  | cons r0 rest0 ih =>
+    intro st k sk hinv h
+    cases k with
+    | zero =>
+      obtain ⟨st1, hp⟩ := run_head h
+      have ps := prepare_spec hinv hp
+      simp [jarAfter, ps.sJar]
+    | succ k' =>
+      rcases run_view (cfg := cfg) st (r0 :: rest0) with ⟨e, hp, hres⟩ | ⟨st1, s, hp, hc, hres⟩ | ⟨st1, s, r, rest, out, evs, hp, hc, hr, hres⟩ | ⟨st1, s, r, rest, st2, evs, hp, hc, hr, hres⟩
+      · rw [hres] at h; simp at h
+      · cases hc
+      · rw [hres] at h; simp at h
+      · injection hc with h3 h4; subst h3; subst h4
+        have ps := prepare_spec hinv hp
+        have rs := react_spec ps.inv hr
+        rw [hres] at h ⊢
+        simp only [List.getElem?_cons_succ] at h
+        have := ih st2 k' sk rs.inv h
+        simp only [List.take_succ_cons, jarAfter]
+        rw [this, rs.jar, ps.jar]
 
 end Aio.C17
